@@ -580,17 +580,57 @@ class Verdict:
         self.cfg = None
 
 
-def validate(ctx, c, trace, name, allow_known=True, timeout=1500, conc=False):
+CONC_ACTIONS = ["CallStep", "RetStep", "DoStep"]
+
+
+def validate(ctx, c, trace, name, allow_known=True, timeout=1500, conc=False, need_actions=None):
+    """need_actions: actions of the trace specification that TLC must have taken while explaining the trace (TLC
+    action coverage; used for the interval actions of ReqResConcTrace.tla)"""
     d, module = trace_instance(ctx, c, name, allow_known, conc=conc)
-    v = vp.tlc_trace(d, module, trace, libs=["api"], timeout=timeout)
+    if need_actions:
+        v = tlc_trace_cov(d, module, trace, timeout)
+    else:
+        v = vp.tlc_trace(d, module, trace, libs=["api"], timeout=timeout)
     out = Verdict()
     out.accepted, out.pos, out.record, out.invariant, out.res = v.accepted, v.pos, v.record, v.invariant, v.res
     out.trace, out.cfg = trace, c
     for m in _re_kd.finditer(v.res.output):
         out.kd.setdefault(m.group(2), set()).add(int(m.group(1)))
     with _lock:
-        vp.record_tlc(ctx, f"ReqResTrace[{os.path.basename(trace)}]", v.res, count=False)
+        vp.record_tlc(ctx, f"{'ReqResConcTrace' if conc else 'ReqResTrace'}[{os.path.basename(trace)}]", v.res, count=False)
+    if need_actions and out.accepted:
+        vp.check_action_coverage(v.res, need_actions, f"trace validation {os.path.basename(trace)}")
     return out
+
+
+def tlc_trace_cov(d, module, trace, timeout):
+    """vp.tlc_trace with TLC's action coverage switched on (local variant: vp.tlc_trace has no such parameter)"""
+    res = vp.tlc(d, module, workers=1, timeout=timeout, env={"TRACE": trace}, coverage=True, deque=True, heap="4g",
+                 libs=["api"])
+    v = vp.TraceVerdict()
+    v.res = res
+    if res.timed_out:
+        raise vp.ToolError(f"trace validation timed out: {module} {trace}")
+    for line in res.prints:
+        m = vp._re_acc.search(line)
+        if m:
+            v.accepted = True
+            v.records = int(m.group(1))
+        m = vp._re_rej.search(line)
+        if m:
+            v.pos = int(m.group(1))
+            try:
+                v.record = json.loads(m.group(2).encode().decode("unicode_escape"))
+            except Exception:
+                v.record = m.group(2)
+    if res.violated and res.violated != "POSTCONDITION":
+        v.accepted = False
+        v.invariant = res.violated
+    if not v.accepted and v.pos is None and v.invariant is None:
+        raise vp.ToolError(f"trace validation gave no verdict ({module}):\n" + res.output[-4000:])
+    if v.accepted and (res.error or res.violated):
+        v.accepted = False
+    return v
 
 
 def fmt_op(r):
